@@ -2,7 +2,8 @@
 
 Bounded-exhaustive over (a) templates: every error class x every evaluation stage at which it can
 surface x w x fjm version, and (b) every single-token deletion / duplication / substitution (by
-each token of a 40-token alphabet) of seed programs (with and without the stl).
+each token of a 40-token alphabet) of seed programs (with and without the stl), and (c) every sequence of
+<= 3 (thorough 4) primitive statements over a 16-statement alphabet (ops, pad, reserve, wflip, segment, label).
 Oracle: the outcome is success or a FlipJumpException subclass whose message is not the generic
 "Unknown exception ... please report this bug" (and, for templates, names the offending
 construct); it finishes under the watchdog; after a failure the output path does not exist or
@@ -162,6 +163,20 @@ def mutants(seed_name):
             yield (seed_name, 'swap', i, None), detok(toks[:i] + [toks[i + 1], toks[i]] + toks[i + 2:])
 
 
+# ------------------------------------------------------------------ (c) primitive statement sequences
+STATEMENTS = [';', 'L+1;L', 'pad 2', 'pad 3', 'pad 4', 'reserve w', 'reserve 2*w', 'reserve 5*w', 'wflip L, 1', 'wflip L, 3', 'wflip L, 6, L',
+              'wflip L+w, 0xF5', 'segment 40*w', 'segment 41*w', 'segment 0', 'M:']
+
+
+def statement_programs(depth):
+    import itertools
+    for d in range(1, depth + 1):
+        for seq in itertools.product(range(len(STATEMENTS)), repeat=d):
+            if [STATEMENTS[i] for i in seq].count('M:') > 1:
+                continue
+            yield seq, 'L:\n  ;L\n' + ''.join(STATEMENTS[i] + '\n' for i in seq)
+
+
 # ------------------------------------------------------------------ running one source
 def run_source(text, w, version, use_stl, werror, wd, special=None):
     """-> dict(outcome, exc, msg, leftover)"""
@@ -287,6 +302,18 @@ def work(task):
                 res = run_source('stl.startup\n' + text + 'stl.loop\n', 64, 3, True, False, wd)
                 judge(res, {'name': name + '+stl', 'text': text, 'w': 64, 'version': 3, 'stl': True, 'werror': False}, must_fail, None, sieve, stats)
         return stats, sieve.result(), sample, len(distinct)
+    if kind == 'statements':
+        _, depth, part, nparts, configs = task
+        for mi, (seq, text) in enumerate(statement_programs(depth)):
+            if mi % nparts != part:
+                continue
+            for (w, version) in configs:
+                res = run_source(text, w, version, False, False, wd)
+                judge(res, {'statements': [STATEMENTS[i] for i in seq], 'text': text, 'w': w, 'version': version, 'stl': False, 'werror': False}, None, None, sieve, stats)
+                distinct.add((seq, res['outcome'], res['exc']))
+            if sample is None and res['outcome'] == 'diagnostic' and len(seq) >= 2:
+                sample = {'statements': [STATEMENTS[i] for i in seq], 'exception': res['exc'], 'message': res['msg'][:160]}
+        return stats, sieve.result(), sample, len(distinct)
     _, seed_name, part, nparts, configs = task
     use_stl = seed_name == 'stl'
     for mi, (mut, text) in enumerate(mutants(seed_name)):
@@ -319,6 +346,8 @@ def make_tasks(tier, only=None):
             tasks.append(('mut', seed, p, 12, cfg_all))
     for p in range(16):
         tasks.append(('mut', 'stl', p, 16, ((64, 3), (32, 1)) if tier == 'thorough' else ((64, 3),)))
+    for p in range(16):
+        tasks.append(('statements', 4 if tier == 'thorough' else 3, p, 16, ((16, 1), (64, 3)) if tier != 'thorough' else cfg_all))
     if only:
         tasks = [t for t in tasks if only in t]
     return tasks
